@@ -122,7 +122,14 @@ func (dr *DatabaseRecovery) LoadDatabaseWithFallback(primaryPath, personalPath s
 func (dr *DatabaseRecovery) loadWithRetry(primaryPath, personalPath string) (*database.Database, error) {
 	var lastErr error
 
-	for attempt := 1; attempt <= dr.retryConfig.MaxAttempts; attempt++ {
+	// At least one attempt is always made: with MaxAttempts <= 0 the loop below
+	// would not run and the caller would receive neither a database nor an error.
+	maxAttempts := dr.retryConfig.MaxAttempts
+	if maxAttempts < 1 {
+		maxAttempts = 1
+	}
+
+	for attempt := 1; attempt <= maxAttempts; attempt++ {
 		db, err := database.LoadDatabaseWithPersonal(primaryPath, personalPath)
 		if err == nil {
 			return db, nil
@@ -136,7 +143,7 @@ func (dr *DatabaseRecovery) loadWithRetry(primaryPath, personalPath string) (*da
 		}
 
 		// Don't sleep on the last attempt
-		if attempt < dr.retryConfig.MaxAttempts {
+		if attempt < maxAttempts {
 			delay := dr.calculateDelay(attempt)
 			time.Sleep(delay)
 		}
